@@ -78,6 +78,9 @@ fn mint_row(c: &Value) -> Vec<u8> {
             _ => Validity::NotYet,
         },
         p256: c["alg"] != "ed25519",
+        // the subject of every minted certificate spells a name every listener of these tables accepts:
+        // what a certificate is valid for is what its subjectAltName says
+        subject_cn: Some(cn("n1")),
     };
     let mut der = adv::mint(&spec).der.as_ref().to_vec();
     if !c["wf"].as_bool().unwrap() {
@@ -332,6 +335,44 @@ pub fn replay(a: &Args) -> i32 {
                     sim.disconnect(dialer, p);
                 }
                 sim.sleep_ms(60).await;
+            }
+        }
+        // a dialer that also accepts an alternate name dials as its primary name: a listener that answers
+        // with a certificate for the alternate name only (it does not pick its certificate by the name
+        // asked for) is not the network that was dialed - with or without a pin on its key
+        {
+            let dialer2 = sim.add_node(NodeCfg { key: [44; 32], name: cn("n1"), alt: Some(cn("n2")), config: cfg.clone(), bind: None }).map_err(|e| e.to_string())?;
+            for (san, want) in [("n2", false), ("n3", false), ("n1", true)] {
+                for pinned in [false, true] {
+                    *n_hs2.lock().unwrap() += 1;
+                    let e_seed = seed_of("E");
+                    let der = adv::mint(&CertSpec { subject_cn: Some(cn("n1")), ..CertSpec::plain(e_seed, None, vec![cn(san)]) }).der;
+                    let sc = adv::server_config(vec![der], adv::ed_key_der(&e_seed));
+                    let (ep, addr) = adv::endpoint(&sim.run.fabric, Some(sc)).map_err(|e| e.to_string())?;
+                    let ep2 = ep.clone();
+                    let acceptor = tokio::spawn(async move {
+                        let mut held = Vec::new();
+                        while let Some(inc) = ep2.accept().await {
+                            if let Ok(conn) = inc.await {
+                                let _ = adv::listener_ack(&conn).await;
+                                held.push(conn);
+                            }
+                        }
+                    });
+                    let e_id = sim::peer_id_of(&e_seed);
+                    let r = if pinned { sim.net(dialer2).connect_with_peer_id(addr, e_id).await } else { sim.net(dialer2).connect(addr).await };
+                    sim.sleep_ms(20).await;
+                    let row = json!({"dialer": {"primary": "n1", "alt": "n2"}, "listener_cert_san": san, "pinned": pinned, "expect": want});
+                    if r.is_ok() != want {
+                        bad(format!("a dialer (primary n1, alternate n2) dialing a listener whose certificate is for {san}: connect returned ok={}, the specification says {want}", r.is_ok()), &row);
+                    }
+                    acceptor.abort();
+                    ep.close(0u32.into(), b"");
+                    for p in sim.net(dialer2).peers() {
+                        sim.disconnect(dialer2, p);
+                    }
+                    sim.sleep_ms(60).await;
+                }
             }
         }
         // no client certificate at all
